@@ -1,15 +1,18 @@
 import GdVerif.Run.Mindustry
 import GdVerif.Run.GenMindustry
+import GdVerif.Run.Savage2
+import GdVerif.Run.GenSavage2
 /-
   Registration of the single-game families (C07): entries and generators.
 -/
 namespace Gd.Run
 
-def smallEntries : List (String × (List String → String)) := mindustryEntries
+def smallEntries : List (String × (List String → String)) := mindustryEntries ++ savage2Entries
 
 def smallGen (suite : String) (seed n : Nat) : Option (List String) :=
   match suite with
   | "mindustry" => some (genMindustry seed n)
+  | "savage2" => some (genSavage2 seed n)
   | _ => none
 
 end Gd.Run
